@@ -182,11 +182,24 @@ def convert_modes():
 
 def schema_to_code_mutates():
     """does schema_to_struct_code apply an in-place mutator to an object obtained from its `schema` parameter
-    without copying it first?  (tiny taint analysis over straight-line assignments)"""
-    fn = _find_fn(_parse("json_schema/json_schema_mapping.py"), "schema_to_struct_code")
+    without copying it first?"""
+    return fn_mutates_param("json_schema/json_schema_mapping.py", "schema_to_struct_code",
+                            {"schema", "definitions_schema"})
+
+
+def mapper_arg_mutates(fn_name):
+    """does aggregate_(de)serialization_mappers edit the caller's `mapper=` object (a list of chained mappers is
+    used as it is) in place?"""
+    return fn_mutates_param("serialization/mappers.py", fn_name, {"override_mapper"})
+
+
+def fn_mutates_param(rel, fn_name, params):
+    """tiny taint analysis over the statements of one function in source order: a name is tainted while it is
+    bound to (part of) a parameter object without an intervening copy; an in-place mutator call, an augmented
+    assignment or a subscript store/delete on a tainted name means the caller's object is edited"""
+    fn = _find_fn(_parse(rel), fn_name)
     if fn is None:
         return None
-    params = {"schema", "definitions_schema"}
     mutated = False
     tainted2 = set()
     for st in _linear(fn):
@@ -196,6 +209,8 @@ def schema_to_code_mutates():
                 tainted2.add(name)
             else:
                 tainted2.discard(name)
+        if isinstance(st, ast.AugAssign) and _derived_with(st.target, params, tainted2):
+            mutated = True
         for n in ast.walk(st) if not isinstance(st, (ast.For, ast.If, ast.While, ast.With, ast.Try)) else []:
             if isinstance(n, ast.Call) and isinstance(n.func, ast.Attribute) and n.func.attr in MUTATORS:
                 if _derived_with(n.func.value, params, tainted2):
@@ -275,6 +290,10 @@ def ast_readings():
     mut = schema_to_code_mutates()
     if mut is not None:
         out[("schemaToCode", "schema", "any")] = "mutates" if mut else "keeps"
+    for op, fname in (("deserialize", "aggregate_deserialization_mappers"), ("serialize", "aggregate_serialization_mappers")):
+        mut = mapper_arg_mutates(fname)
+        if mut is not None:
+            out[(op, "mapping", "any")] = "mutates" if mut else "keeps"
     for kind, copies in wrapper_ctor_copies().items():
         for op in ("construct", "setattr"):
             for cat in ("number", "string", "scalar", "coll", "inline", "wrap", "untyped", "any", "struct"):
@@ -420,6 +439,18 @@ def probe_all():
             r["returns"] = "scalar" if impl.get("ok") else "raises"
             rows.append((op, "schema", "any", r))
             rows.append((op, "root", "none", dict(r)))
+    # the `mapper=` argument of the (de)serialization entry points: None / dict / list x camel_case_convert
+    marg = {}
+    for c in S.directed_cases():
+        if c["op"] in ("deserialize", "serialize") and c.get("mapper") not in (None, "none"):
+            impl = S.run_impl(c)
+            if "unbuildable" in impl:
+                continue
+            r = marg.setdefault(c["op"], {"argMutated": False, "returns": "fresh", "retainsArg": False,
+                                          "shallow": False, "deep": False})
+            r["argMutated"] |= not impl.get("args_same", True)
+    for op, r in marg.items():
+        rows.append((op, "mapping", "any", r))
     derive = {}
     for c in S.directed_cases():
         if c["op"] == "derive":
